@@ -7,8 +7,11 @@ SetToSeq(S) == LET RECURSIVE F(_) F(T) == IF T = {} THEN <<>> ELSE LET x == CHOO
 Proj == [h  |-> [e \in Eps |-> <<h[e].status, h[e].fail, h[e].lastFail, h[e].send, h[e].aSucc, h[e].aBlock, h[e].aCheck, h[e].aKeep>>],
          cr |-> SetToSeq(created), ac |-> SetToSeq(active), pq |-> probeQ, li |-> SetToSeq(listed),
          fl |-> [c \in Calls |-> <<infl[c].ep, infl[c].probe>>],
-         up |-> SetToSeq({e \in Eps : up[e]})]
+         up |-> SetToSeq({e \in Eps : up[e]}),
+         rg |-> SetToSeq(reg)]                     \* the registry's active list as installed (activeEpf)
 BreaksSeq(S) == LET RECURSIVE F(_) F(T) == IF T = {} THEN <<>> ELSE LET x == CHOOSE y \in T : TRUE IN <<x>> \o F(T \ {x}) IN F(S)
-StepRec(a, c, e, k, ok, d, cs) == [a |-> a, c |-> c, e |-> e, k |-> k, ok |-> ok, d |-> d, cands |-> cs, st |-> Proj',
+StepRec(a, c, e, k, ok, d, cs) == [a |-> a, c |-> c, e |-> e, k |-> k, ok |-> ok, d |-> d, cands |-> cs, ina |-> <<>>, st |-> Proj',
                                    breaks |-> BreaksSeq(StepBreaks(a = "Check"))]
+\* a registry refresh: cands = the active list of the registry's answer, ina = its inactive list, ok = an attribute of the endpoints changed
+RefreshRec(x) == [StepRec("Refresh", 0, 0, "", x.v, 0, SetToSeq(x.a)) EXCEPT !.ina = SetToSeq(x.i)]
 ====
